@@ -76,6 +76,12 @@ def cases(rng, tier):
         fe = VL.float_expr(f)
         for name, want in (('ㄱ', tr), ('ㄴ', fl), ('ㄷ', rn), ('ㄹ', ce), ('ㅁ', aw)):
             yield Case(program=render(call(raw(f"(ㅂ ㅅ ㅂㄹ {name} ㅂㅎㅁ)"), fe)), tag='round-' + name, monitor='c17_expect', data=str(want))
+        # the roundings of an Integer argument are the integer itself — exactly, also beyond 2^53 where a detour through a
+        # double loses bits (seeded change S17i: round-away went through math.copysign)
+        n_ = rng.choice([2 ** 53 + 1, -(2 ** 53) - 1, 2 ** 63 - 1, -(2 ** 63) + 1, 10 ** 30 + 7, -(10 ** 30) - 7, 2 ** 64 + 1, rng.randint(-10 ** 40, 10 ** 40),
+                         rng.randint(-100, 100), 2 ** 200 + 12345, -(2 ** 1100) - 1])
+        for name in ('ㄱ', 'ㄴ', 'ㄷ', 'ㄹ', 'ㅁ'):
+            yield Case(program=render(call(raw(f"(ㅂ ㅅ ㅂㄹ {name} ㅂㅎㅁ)"), lit(n_))), tag='round-int-' + name, monitor='c17_expect', data=str(n_))
 
 
 SPEC = {
@@ -86,7 +92,7 @@ SPEC = {
     'rule': 'integer pairs to 2^200 in all sign combinations: and / or / xor rebuilt bit by bit from the operands\' '
             'infinite two\'s-complement strings (bit i = ⌊x / 2^i⌋ mod 2), not = −x−1, shift counts −300…300 (= x·2^n / '
             '⌊x / 2^−n⌋); finite doubles (half-integers, neighbours of 2^52 / 2^53 / 2^63 / 2^64, random bit patterns, '
-            'subnormals): the five roundings against floor / ceil of the exact rational value. Non-trivial: all',
+            'subnormals): the five roundings against floor / ceil of the exact rational value; the five roundings of Integer arguments to 2^1100 (identity). Non-trivial: all',
     'trusted': ['fractions.Fraction(float) as the exact value of a double'],
     'assumptions': ['±inf / nan are rejected with a language exception (C04)'],
 }
